@@ -151,19 +151,32 @@ def lake_build(targets):
     return rc == 0, out
 
 
+def prop_modules(prop):
+    """Props/<prop>.lean and, when present, Props/<prop>Ext.lean (property theorems of <prop> that need results of
+    properties proved later in the import order, e.g. C15's semantic theorem obtained from C14's)"""
+    mods = [prop]
+    if os.path.exists(os.path.join(LEAN, "PermutaModel", "Props", prop + "Ext.lean")):
+        mods.append(prop + "Ext")
+    return mods
+
+
 def prop_theorems(prop):
-    """names of the theorems stated in Props/<prop>.lean (the proof obligations)"""
-    path = os.path.join(LEAN, "PermutaModel", "Props", prop + ".lean")
-    if not os.path.exists(path):
-        return [], ""
-    src = open(path).read()
-    # strip block comments so commented-out statements are not counted
-    stripped = re.sub(r"/-.*?-/", "", src, flags=re.S)
-    stripped = re.sub(r"--.*", "", stripped)
-    names = re.findall(r"^\s*(?:@\[[^\]]*\]\s*)?theorem\s+([^\s:({\[]+)", stripped, flags=re.M)
-    ns = re.findall(r"^namespace\s+(\S+)", stripped, flags=re.M)
-    prefix = (ns[0] + ".") if ns else ""
-    return [prefix + n for n in names], src
+    """names of the theorems stated in Props/<prop>.lean (+ Props/<prop>Ext.lean): the proof obligations"""
+    allnames, allsrc = [], ""
+    for m in prop_modules(prop):
+        path = os.path.join(LEAN, "PermutaModel", "Props", m + ".lean")
+        if not os.path.exists(path):
+            continue
+        src = open(path).read()
+        # strip block comments so commented-out statements are not counted
+        stripped = re.sub(r"/-.*?-/", "", src, flags=re.S)
+        stripped = re.sub(r"--.*", "", stripped)
+        names = re.findall(r"^\s*(?:@\[[^\]]*\]\s*)?theorem\s+([^\s:({\[]+)", stripped, flags=re.M)
+        ns = re.findall(r"^namespace\s+(\S+)", stripped, flags=re.M)
+        prefix = (ns[0] + ".") if ns else ""
+        allnames += [prefix + n for n in names]
+        allsrc += src
+    return allnames, allsrc
 
 
 FORBIDDEN = re.compile(r"\bsorry\b|\badmit\b|^\s*axiom\s|native_decide|bv_decide|implemented_by|\bunsafe\s|maxHeartbeats\s+0\b", re.M)
@@ -191,10 +204,10 @@ def axiom_audit(prop):
     names, src = prop_theorems(prop)
     if not names:
         return 0, 0, {}, "no Props/%s.lean" % prop
-    olean = os.path.join(LEAN, ".lake", "build", "lib", "lean", "PermutaModel", "Props", prop + ".olean")
+    oleans = [os.path.join(LEAN, ".lake", "build", "lib", "lean", "PermutaModel", "Props", m + ".olean") for m in prop_modules(prop)]
     key = ""
-    if os.path.exists(olean):
-        key = hashlib.sha256(open(olean, "rb").read() + src.encode()).hexdigest()
+    if all(os.path.exists(o) for o in oleans):
+        key = hashlib.sha256(b"".join(open(o, "rb").read() for o in oleans) + src.encode()).hexdigest()
     cache_path = os.path.join(LEAN, ".lake", "audit-%s.json" % prop)
     if key and os.path.exists(cache_path):
         try:
@@ -205,7 +218,8 @@ def axiom_audit(prop):
             pass
     audit_file = os.path.join(LEAN, ".lake", "Audit_%s.lean" % prop)
     with open(audit_file, "w") as f:
-        f.write("import PermutaModel.Props.%s\n" % prop)
+        for m in prop_modules(prop):
+            f.write("import PermutaModel.Props.%s\n" % m)
         for n in names:
             f.write("#print axioms %s\n" % n)
     rc, out = sh(["lake", "env", "lean", audit_file], cwd=LEAN, timeout=1200)
@@ -422,7 +436,7 @@ def run_check(mod, argv):
             ctx.model_ok = False
             broken.append("lake build driver failed (model does not elaborate against regenerated tables)")
             build_log += log_d[-4000:]
-        ok_p, log_p = lake_build(["PermutaModel.Props.%s" % prop])
+        ok_p, log_p = lake_build(["PermutaModel.Props.%s" % m for m in prop_modules(prop)])
         if not ok_p:
             broken.append("lake build PermutaModel.Props.%s failed" % prop)
             build_log += log_p[-6000:]
@@ -438,7 +452,7 @@ def run_check(mod, argv):
         if src_bad:
             broken.append("forbidden construct in Lean sources: " + "; ".join(src_bad))
         if tier == "thorough" and ok_p and os.environ.get("VERIF_SKIP_LEANCHECKER") != "1":
-            rc, out = sh(["lake", "env", "leanchecker", "PermutaModel.Props.%s" % prop], cwd=LEAN, timeout=3000)
+            rc, out = sh(["lake", "env", "leanchecker"] + ["PermutaModel.Props.%s" % m for m in prop_modules(prop)], cwd=LEAN, timeout=3000)
             ctx.extra["leanchecker"] = "ok" if rc == 0 else "FAILED: " + out[-500:]
             if rc != 0:
                 broken.append("leanchecker rejected PermutaModel.Props.%s" % prop)
